@@ -488,6 +488,37 @@ def _(p):
     return None
 
 
+@replay("c09_numeric_levels")
+def _(p):
+    import pandas
+    from formulaic import model_matrix
+    from formulaic.errors import FactorEncodingError
+
+    n = 7
+    train = pandas.DataFrame({"G": pandas.Categorical([1, 2, 3, 1, 2, 3, 2]), "H": pandas.Categorical([True, False, True, True, False, False, True]),
+                              "a": [0.5, 1.5, 2.0, 3.5, 4.0, 5.5, 6.0], "b": [2.0, 1.0, 4.0, 3.0, 6.0, 5.0, 7.0]})
+    spec = model_matrix(p["formula"], train).model_spec
+    follow = train.copy()
+    col, how = p["col"], p["how"]
+    base = [1, 2, 3, 1, 2, 3, 2] if col == "G" else [1, 0, 1, 1, 0, 0, 1]
+    if how == "int":
+        follow[col] = numpy.array(base, dtype="int64")
+    elif how == "float":
+        follow[col] = numpy.array(base, dtype=float)
+    elif how == "bool":
+        follow[col] = numpy.array(base, dtype=float) > 1.5 if col == "G" else numpy.array(base, dtype=bool)
+    else:
+        follow = follow.iloc[:0].copy()
+        follow[col] = numpy.array([], dtype=float)
+    try:
+        mm = spec.get_model_matrix(follow)
+    except FactorEncodingError:
+        return None
+    except Exception as e:
+        return f"wrong-error: {p['formula']!r}: categorical {col} (levels {sorted(set(base))}) arriving as a plain {how} column raised {type(e).__name__}: {str(e)[:100]}"
+    return f"no-error: {p['formula']!r}: categorical {col} arriving as a plain {how} column of its own level values produced a {mm.shape} matrix instead of FactorEncodingError"
+
+
 @replay("c09_redeclared")
 def _(p):
     import warnings
